@@ -11,7 +11,7 @@ use proptest::prelude::*;
 use serde::{Deserialize, Serialize};
 use std::collections::BTreeMap;
 
-pub const RULE: &str = "(D0) every protected name (16 keywords / inputs / constants / inf / infinity and every name of get_built_in_function_idents()) x 15 binding forms (plain, output, nested in parentheses / list / record / operator chain / conditional, function value; inside a lambda body or do-block; and as a do-block local / parameter that is read back - which must fail or give the bound value): the top-level forms must fail, and in all forms what typeof / to_string / field access observe of the name at top level, and the set of root names, must be unchanged. (D1) every sequence up to length 4 (thorough: 5 over a 29-template core) over an alphabet of statement templates on names a, b: bind, rebind, copy, nested assignment `a = (b = 5) + 1`, self-nested `a = (a = 1) + 1`, list-nested, partially failing `[a = 1, nope]`, `output a`, `output a = 1`, do-block shadowing (also by the block's `return name = ...` statement) / nested assignment inside a do-block / do-block returning a closure, functions whose parameters reuse a / b, calls, closures over a (reading it, rebinding it in a do-block) called at top level and from inside a function whose parameter is called a, assignment inside a lambda body (with parameters; anonymous without parameters, with and without captured names), failing statements, attempts to bind keywords, inputs, constants and built-in names; each statement is evaluated like a REPL line and compared with a bind-once reference model (success / failure, the whole root environment, values). (D2) random sessions of 5-40 generated statements with rebinding attempts and failing statements, checked with history invariants: snapshot monotonicity, no insert into the root environment for a key it holds (hook H2), reserved names never bound, root names are a subset of the names assigned in top-level position. (D3) sessions of 2-7 one-line statements (heap-valued bindings, nested bindings inside lines that fail later, rebinding attempts, allocating lines) typed into the interactive CLI on a pseudo-terminal; afterwards every name is printed and must show what the same lines give in-process. (D4) 6 ways of keeping an anonymous function whose body mentions an unbound name x 7 inner scopes that bind that name to the function value (do-block local, parameter, nested block, block inside a function / a via callback, failing block, via a second local) x 4 names: what the function does when reached through its container (call results and failures, display, self-equality) must be the same before and after, and the name must not appear at top level. (D5) `x = C[(x = V)]` and `output x = C[(x = V)]` for 38 contexts C (operands, list / record items, computed keys, list / record / argument spreads, index and field targets, conditions and branches, prefix / postfix operands, ??, pipelines, calls): the statement must be refused, x keeps the value of the inner binding and the root environment is never overwritten. (D6) a self-recursive named function handed over by value (argument, alias, via / map element) to a parameter list, do-block or callback that binds the function's own name to something else: the function still calls itself. Non-trivial = the history contains a (re)binding attempt on an already bound or reserved name, or a shadowing scope; distinct by the statement sequence.";
+pub const RULE: &str = "(D0) every protected name (16 keywords / inputs / constants / inf / infinity and every name of get_built_in_function_idents()) x 15 binding forms (plain, output, nested in parentheses / list / record / operator chain / conditional, function value; inside a lambda body or do-block; and as a do-block local / parameter that is read back - which must fail or give the bound value): the top-level forms must fail, and in all forms what typeof / to_string / field access observe of the name at top level, and the set of root names, must be unchanged. (D0b) every protected name as the parameter (required, optional, rest) or do-block local of a function that arrives as a JSON input: loading or calling it must fail, or the argument is read back. (D1) every sequence up to length 4 (thorough: 5 over a 29-template core) over an alphabet of statement templates on names a, b: bind, rebind, copy, nested assignment `a = (b = 5) + 1`, self-nested `a = (a = 1) + 1`, list-nested, partially failing `[a = 1, nope]`, `output a`, `output a = 1`, do-block shadowing (also by the block's `return name = ...` statement) / nested assignment inside a do-block / do-block returning a closure, functions whose parameters reuse a / b, calls, closures over a (reading it, rebinding it in a do-block) called at top level and from inside a function whose parameter is called a, assignment inside a lambda body (with parameters; anonymous without parameters, with and without captured names), failing statements, attempts to bind keywords, inputs, constants and built-in names; each statement is evaluated like a REPL line and compared with a bind-once reference model (success / failure, the whole root environment, values). (D2) random sessions of 5-40 generated statements with rebinding attempts and failing statements, checked with history invariants: snapshot monotonicity, no insert into the root environment for a key it holds (hook H2), reserved names never bound, root names are a subset of the names assigned in top-level position. (D3) sessions of 2-7 one-line statements (heap-valued bindings, nested bindings inside lines that fail later, rebinding attempts, allocating lines) typed into the interactive CLI on a pseudo-terminal; afterwards every name is printed and must show what the same lines give in-process. (D4) 6 ways of keeping an anonymous function whose body mentions an unbound name x 7 inner scopes that bind that name to the function value (do-block local, parameter, nested block, block inside a function / a via callback, failing block, via a second local) x 4 names: what the function does when reached through its container (call results and failures, display, self-equality) must be the same before and after, and the name must not appear at top level. (D5) `x = C[(x = V)]` and `output x = C[(x = V)]` for 38 contexts C (operands, list / record items, computed keys, list / record / argument spreads, index and field targets, conditions and branches, prefix / postfix operands, ??, pipelines, calls): the statement must be refused, x keeps the value of the inner binding and the root environment is never overwritten. (D6) a self-recursive named function handed over by value (argument, alias, via / map element) to a parameter list, do-block or callback that binds the function's own name to something else: the function still calls itself. Non-trivial = the history contains a (re)binding attempt on an already bound or reserved name, or a shadowing scope; distinct by the statement sequence.";
 pub const ASSUMPTIONS: &[&str] = &[
     "hook H2 (thread-local log of Environment::insert) is a monitor only; with the feature off the code is unchanged",
     "a statement that fails half-way may keep the bindings its already-evaluated inner assignments made (the statement only requires that bound names never change)",
@@ -553,6 +553,31 @@ impl Check for History {
                 }
                 if must_fail && got.is_ok() {
                     fail!(format!("protected:bound:{}", tmpl.replace('\n', " ")), "`{}` succeeded ({:?}) although {} is a keyword, a built-in function name, inputs or constants", src, got, name);
+                }
+                // the same binding arriving as the parameter of a function *input* (JSON function
+                // object): it must be refused, fail, or give the argument back - like in source
+                if *form == 0 {
+                    for (fsrc, call, ok_value) in [("(NAME) => [NAME]", "inputs.pf(7)", "[7]"), ("(a, NAME?) => [NAME]", "inputs.pf(1, 7)", "[7]"), ("(...NAME) => NAME", "inputs.pf(7)", "[7]"), ("x => do {\n  NAME = x\n  return [NAME]\n}", "inputs.pf(7)", "[7]")] {
+                        let s2 = Sess::new();
+                        let doc = serde_json::json!({"__blots_function": fsrc.replace("NAME", name)});
+                        let loaded = crate::blots::from_json(&doc).to_value(&mut s2.heap.borrow_mut());
+                        let mut map = indexmap::IndexMap::new();
+                        if let Ok(v) = loaded {
+                            map.insert("pf".to_string(), v);
+                        }
+                        let rec = s2.heap.borrow_mut().insert_record(map);
+                        s2.bind_value("inputs", rec);
+                        let got = s2.obs(call);
+                        let want = Sess::new().obs(ok_value);
+                        let fine = match (&got, &want) {
+                            (Err(_), _) => true,
+                            (Ok(a), Ok(b)) => a.same_nanclass(b),
+                            _ => false,
+                        };
+                        if !fine {
+                            fail!(format!("protected:unreadable-binding:function-input:{}", fsrc.replace('\n', " ")), "a function input with the source `{}` is accepted and `{}` gives {:?}: the binding of {} cannot be read back", fsrc.replace("NAME", name), call, got, name);
+                        }
+                    }
                 }
                 let after = observe_protected(&sess, name);
                 if after != before {
